@@ -41,6 +41,15 @@ def units_float(k):
     return float(Fraction(k, SCALE))
 
 
+_OPAQUE_PATHS = []
+
+
+def reset_opaque():
+    """forget the numbering of opaque objects (called when a new case starts: numbers only need to be
+    consistent within one case)"""
+    del _OPAQUE_PATHS[:]
+
+
 def enc_val(v):
     if v is None:
         return ["n"]
@@ -66,7 +75,16 @@ def enc_val(v):
             return ["T", "obj"]
         raise Unencodable(f"type {v!r}")
     if isinstance(v, DP.DataPath):
-        return ["o", 0]
+        # an opaque object of the model: numbered by `==`-class (equal paths get the same number, unequal
+        # ones different numbers), so that equality of conditions / parts / labels holding paths is preserved
+        for i, q in enumerate(_OPAQUE_PATHS):
+            try:
+                if q == v and v == q:
+                    return ["o", i]
+            except Exception:  # noqa: BLE001
+                pass
+        _OPAQUE_PATHS.append(v)
+        return ["o", len(_OPAQUE_PATHS) - 1]
     raise Unencodable(f"value of type {t.__name__}")
 
 
